@@ -363,6 +363,24 @@ def check_special(rep, table_rows):
         viol(rep, 'explicit state of daughter d1 under a branch-level set divider: daughters '
              'hold %r, expected ({x: 77, y: 5}, {x: 3, y: 5})' % (got,),
              {'divider': 'branch-level set', 'explicit': 'd1 br/x=77'})
+    # ... also when what the divider hands both daughters is an (empty) dictionary
+    for mval in ({}, {'k': 1}):
+        rep.evaluations += 1
+        vars_ = {'a': {'_default': {}, '_divider': 'set', '_updater': 'set'}}
+        case = {'divider': 'set', 'value': repr(mval), 'explicit': 'd1 a/n=5'}
+        try:
+            eng, snaps = run_division(vars_, {'a': dict(mval)},
+                                      explicit1={'st': {'a': {'n': 5}}})
+        except Exception as e:
+            viol(rep, 'division raised %r' % (e,), case)
+            continue
+        s = strip(snaps[0])['agents']
+        got = (s['d1']['st']['a'], s['d2']['st']['a'], s['z']['st']['a'])
+        if got != (dict(mval, n=5), mval, mval):
+            viol(rep, 'explicit state {a: {n: 5}} of daughter d1, mother holding %r: d1, d2 and '
+                 'the sibling hold %r, expected %r' % (mval, got, (dict(mval, n=5), mval, mval)),
+                 case)
+    rep.nontrivial.add('explicit-dict')
     # two generations: the second division divides what the first produced
     by = {(r['d'], r['v']): {tuple(p) for p in r['outs']} for r in table_rows}
     for seed in range(4):
